@@ -24,8 +24,8 @@ import (
 )
 
 type c16GrainOut struct {
-	Grains, Messages, Requests, Rejected, Replies, Timeouts, Cancels, Continuations, Panics, ReceivePanics int64
-	Violations                                                                                             []string
+	Grains, Messages, Requests, Rejected, Replies, Timeouts, Cancels, Continuations, Panics, ReceivePanics, TellTimeouts int64
+	Violations                                                                                                           []string
 }
 
 type c16GReq struct {
@@ -238,6 +238,13 @@ func TestVerifC16Grain(t *testing.T) {
 				for n := s; n < nMsg; n += senders {
 					if err := sys.TellGrain(ctx, ids[i], &testpb.TestCount{Value: int32(n)}); err != nil {
 						if _, isPanic := errors.AsType[*gerrors.PanicError](err); !isPanic { // a panicking OnReceive reports itself to the sender
+							// TellGrain waits for the grain's turn with DefaultGrainRequestTimeout: on a heavily loaded
+							// machine that wait can expire although nothing is wrong. A timed-out tell is inconclusive
+							// (the message may or may not have been handled): it is counted, not reported.
+							if errors.Is(err, gerrors.ErrRequestTimeout) || errors.Is(err, context.DeadlineExceeded) {
+								atomic.AddInt64(&out.TellTimeouts, 1)
+								continue
+							}
 							viol.add("%s: TellGrain(%d) failed: %v", grains[i].name, n, err)
 							return
 						}
